@@ -627,6 +627,8 @@ class Run03(object):
         name = None
         if b['kind'] == 'file':
             ext = '.py' if is_source(b) else ('.json' if is_json(b) else '.pkl')
+            if b.get('noext'):
+                ext = ''         # the name as a user would type it (klepto appends '.py' for source-text archives itself)
             name = os.path.join(self.root, 'copy%d%s' % (self.step, ext))
         elif b['kind'] == 'dir':
             name = os.path.join(self.root, 'copydir%d' % self.step)
